@@ -108,6 +108,12 @@ def show_headers(hs):
             n_, v_ = h
             sane = (len(h) == 2 and tuple(h) == (h[0], h[1]) and (n_, v_) == (h[0], h[1]) and hash(h) == hash((h[0], h[1]))
                     and h == (h[0], h[1]))
+            try:
+                c_ = copy.copy(h)
+                if len(c_) == 2 and tuple(c_) == tuple(h):      # where copying yields the pair at all, it must keep the class
+                    sane = sane and type(c_) is type(h) and c_.indexable == h.indexable
+            except Exception:
+                pass
             if cls == 'N':
                 sane = sane and h.indexable is False
             elif cls == 'P':
@@ -270,7 +276,21 @@ def step(toks, ann):
     if op == 'enew':
         encs[toks[1]] = Encoder()
         return 'ok | ' + show_enc(encs[toks[1]])
-    if op in ('esize', 'eenc', 'eapi', 'edump'):
+    if op in ('ecopy', 'dcopy', 'tcopy'):
+        import pickle
+        pool = {'ecopy': encs, 'dcopy': decs, 'tcopy': tables}[op]
+        src = pool.get(toks[2])
+        if src is None:
+            return 'bad-id'
+        try:
+            obj = copy.deepcopy(src) if toks[3] == 'deep' else pickle.loads(pickle.dumps(src))
+        except Exception as ex:
+            return canon(ex)
+        pool[toks[1]] = obj
+        if op == 'ecopy':
+            lastout[toks[1]] = lastout.get(toks[2], b'')
+        return 'ok | ' + {'ecopy': show_enc, 'dcopy': show_dec, 'tcopy': show_table}[op](obj)
+    if op in ('esize', 'eenc', 'eapi', 'edump', 'eev', 'eadd'):
         e = encs.get(toks[1])
         if e is None:
             return 'bad-id'
@@ -281,6 +301,20 @@ def step(toks, ann):
                 hs = [] if toks[3:] == ['-'] else [tuple(x.split(':')) for x in toks[3:]]
                 hs = [(unhex(n), unhex(v), s == '1') for n, v, s in hs]
                 out = e.encode(hs, huffman=(toks[2] == '1'))
+                lastout[toks[1]] = bytes(out)
+                return 'ok ' + hx(out) + ' | ' + show_enc(e)
+            if op == 'eadd':
+                out = e.add((unhex(toks[4]), unhex(toks[5])), toks[3] == '1', toks[2] == '1')
+                lastout[toks[1]] = bytes(out)
+                return 'ok ' + hx(out) + ' | ' + show_enc(e)
+            if op == 'eev':
+                def events(enc=e, items=toks[3:]):
+                    for t in items:
+                        if t.startswith('!size='):
+                            enc.header_table_size = int(t[6:])
+                        else:
+                            yield parse_form(t)
+                out = e.encode(events(), huffman=(toks[2] == '1'))
                 lastout[toks[1]] = bytes(out)
                 return 'ok ' + hx(out) + ' | ' + show_enc(e)
             if op == 'eapi':
